@@ -405,3 +405,25 @@ Proof.
   destruct (sm_get o k) as [[s|e]|]; cbn [effective] in *; [reflexivity| |contradiction].
   destruct (e_get e dir); [reflexivity|contradiction].
 Qed.
+
+(* boolean equality of strategy maps, for the correspondence *)
+Fixpoint lst_eqb {A} (e: A -> A -> bool) (l1 l2: list A) : bool :=
+  match l1, l2 with
+  | [], [] => true
+  | x :: r1, y :: r2 => e x y && lst_eqb e r1 r2
+  | _, _ => false end.
+Definition sval_eqb (a b: sval) : bool :=
+  match a, b with
+  | SStrat x, SStrat y => Nat.eqb x y
+  | SDict x, SDict y => lst_eqb (fun p q => String.eqb (fst p) (fst q) && Nat.eqb (snd p) (snd q)) x y
+  | _, _ => false end.
+Definition smap_eqb (a b: smap) : bool :=
+  lst_eqb (fun p q => Nat.eqb (fst p) (fst q) && sval_eqb (snd p) (snd q)) a b.
+
+(* K2 validation case: cls namespace, other namespace, attribute values of the real merged class *)
+Definition k2_case := (list (string * kv) * list (string * kv) * list (string * kv))%type.
+Definition k2_case_ok (c: k2_case) : bool :=
+  let '(a, b, expected) := c in
+  match merge_options (KNs a) (KNs b) (KNs []) with
+  | Ok (KNs r) => forallb (fun p => kv_eqb (option_of r (fst p)) (snd p)) expected
+  | _ => false end.
